@@ -5,5 +5,5 @@ cd "$(dirname "${BASH_SOURCE[0]}")"
 mkdir -p .build
 if [ ! -e .build/shim/lib/libuv.a ]; then ./toolchain/mkshim.sh "${VERIF_REPO:-/repo}" "$PWD/.build/shim"; fi
 . ./toolchain/env.sh
-(cd harness && go build -o "$VERIF_BUILD/vcheck" ./cmd/vcheck)
+go build -o "$VERIF_BUILD/vcheck" ./harness/cmd/vcheck
 echo "setup ok"
